@@ -4,6 +4,9 @@ import (
 	"fmt"
 	"os"
 	"testing"
+
+	"github.com/JunNishimura/Goit/verifharness/core/stats"
+	"pgregory.net/rapid"
 )
 
 func TestC02(t *testing.T) {
@@ -55,4 +58,102 @@ func TestC14(t *testing.T) {
 		}
 		return st
 	}})
+}
+
+func TestC03(t *testing.T) {
+	runProfile(t, profHostile, runOpts{weights: hostileWeights, seedFiles: 2})
+}
+
+func TestC17(t *testing.T) {
+	runProfile(t, profIgnore, runOpts{weights: ignoreWeights, seedFiles: 2, pre: func(g *G) []Step {
+		if g.Chance(65, "withIgnore") {
+			return []Step{{Op: "write", Path: ".goitignore", Data: g.IgnoreFile()}}
+		}
+		return nil
+	}})
+}
+
+// TestC18 runs command lines from a grammar over all sub-commands against states
+// reached by random prefixes; a share of the cases starts without identity or
+// without `init` so that fresh and unconfigured repositories are common.
+func TestC18(t *testing.T) {
+	rapid.Check(t, func(rt *rapid.T) {
+		e := NewExec(profRobust)
+		defer e.Close()
+		e.hostileMsgs = true
+		g := &G{T: rt, E: e}
+		stats.Eval()
+		do := func(st Step) {
+			if err := e.Do(st); err != nil {
+				if _, ok := err.(*Violation); ok {
+					rt.Fatalf("%s", fail(profRobust, e.Sc, err))
+				}
+				panic(err)
+			}
+		}
+		switch g.Int(0, 9, "startState") {
+		case 0: // not even initialised
+		case 1, 2: // fresh, no identity
+			do(goit("init"))
+		default:
+			for _, st := range prelude(g) {
+				do(st)
+			}
+		}
+		if g.Chance(25, "withIgnore") {
+			do(Step{Op: "write", Path: ".goitignore", Data: g.IgnoreFile()})
+		}
+		rt.Repeat(map[string]func(*rapid.T){
+			"step": func(rt *rapid.T) {
+				g := &G{T: rt, E: e}
+				do(nextStep(g, robustWeights))
+			},
+		})
+		sampleScenario(e.Sc)
+	})
+}
+
+// TestC20 starts from `init` only: which of (local, global) x (name, e-mail) is set is up to the generated sequence.
+func TestC20(t *testing.T) {
+	rapid.Check(t, func(rt *rapid.T) {
+		e := NewExec(profConfig)
+		defer e.Close()
+		g := &G{T: rt, E: e}
+		stats.Eval()
+		do := func(st Step) {
+			if err := e.Do(st); err != nil {
+				if _, ok := err.(*Violation); ok {
+					rt.Fatalf("%s", fail(profConfig, e.Sc, err))
+				}
+				panic(err)
+			}
+		}
+		do(goit("init"))
+		do(Step{Op: "write", Path: "c.txt", Data: []byte("0\n")})
+		do(goit("add", "c.txt"))
+		// a drawn subset of the four identity settings, so that all 16 combinations occur
+		for i, k := range []string{"user.name", "user.email"} {
+			for j, scope := range []string{"local", "global"} {
+				if g.Bool(fmt.Sprintf("set-%s-%s", scope, k)) {
+					val := []string{g.UserName(), g.Email()}[i]
+					args := []string{"config"}
+					if j == 1 {
+						args = append(args, "--global")
+					}
+					do(goit(append(args, k, val)...))
+				}
+			}
+		}
+		rt.Repeat(map[string]func(*rapid.T){
+			"step": func(rt *rapid.T) {
+				g := &G{T: rt, E: e}
+				do(nextStep(g, configWeights))
+			},
+		})
+		sampleScenario(e.Sc)
+	})
+}
+
+func TestC05Histories(t *testing.T) {
+	runProfile(t, profReadback, runOpts{weights: readbackWeights, seedFiles: 3})
 }
